@@ -726,7 +726,12 @@ def c10_worlds(rng: random.Random) -> list[dict]:
     W("missing_in_lookup_paths", {M: 'import "lib/x.exps";\n' + VALID_MAIN, "/proj/unlisted/lib/x.exps": leaf}, lookup=["/proj/macros", "/opt/shared"])
     # the pinned tree rejects `..` in a lookup-path import; the property does not ask for that, only for an answer
     W("lookup_import_with_dot_segments", {M: 'import "lib/../x.exps";\n' + VALID_MAIN, "/proj/macros/x.exps": leaf}, lookup=["/proj/macros"], expect="answer")
-    W("import_of_a_directory", {M: 'import "./lib";\n' + VALID_MAIN, "/proj/SCRIPT/lib/x.exps": leaf}, expect="reject-or-oserror")
+    W("import_of_a_directory", {M: 'import "./lib";\n' + VALID_MAIN, "/proj/SCRIPT/lib/x.exps": leaf})
+    W("import_of_a_directory_through_the_lookup_paths", {M: 'import "lib";\n' + VALID_MAIN, "/proj/macros/lib/x.exps": leaf}, lookup=["/proj/macros"])
+    W("directory_named_like_the_import_in_an_earlier_lookup_path", {M: 'import "lib.exps";\n' + use, "/proj/a/lib.exps/x.exps": "macro unrelated() { u(); }\n",
+                                                                   "/proj/b/lib.exps": leaf}, lookup=["/proj/a", "/proj/b"], expect="accept")
+    W("lookup_import_starting_with_a_dot", {M: 'import ".hid/lib.exps";\n' + use, "/proj/macros/.hid/lib.exps": leaf}, lookup=["/proj/macros"], expect="accept")
+    W("lookup_import_starting_with_a_dot_is_not_relative", {M: 'import ".hid/lib.exps";\n' + use, "/proj/SCRIPT/.hid/lib.exps": leaf}, lookup=["/proj/macros"])
     for depth in (1, 2):
         files = {M: 'import "./d1.exps";\n' + use, "/proj/SCRIPT/d1.exps": 'import "./d2.exps";\n' + leaf,
                  "/proj/SCRIPT/d2.exps": "macro m2() { o(); }\n"}
